@@ -41,6 +41,7 @@ struct DataN {
 	size_override: Option<u32>,
 	otd_delta: i64, // added to OffsetToData
 	odd: bool,      // place the blob at an odd offset
+	half: bool,     // place the blob at an offset that is 2 mod 4 (valid for everything built from u16 halves, e.g. icon groups)
 }
 #[derive(Default)]
 struct Tree {
@@ -63,7 +64,7 @@ fn w32(b: &mut Vec<u8>, o: usize, v: u32) {
 
 impl Tree {
 	fn data(&mut self, bytes: Vec<u8>, cp: u32) -> usize {
-		self.datas.push(DataN { bytes, cp, size_override: None, otd_delta: 0, odd: false });
+		self.datas.push(DataN { bytes, cp, size_override: None, otd_delta: 0, odd: false, half: false });
 		self.datas.len() - 1
 	}
 	fn dir(&mut self) -> usize {
@@ -102,6 +103,9 @@ impl Tree {
 		for d in &self.datas {
 			if d.odd {
 				p |= 1;
+			}
+			else if d.half {
+				p = ((p + 3) & !3) + 2;
 			}
 			blob_off.push(p);
 			p += d.bytes.len() as u32;
@@ -455,6 +459,12 @@ fn gen(rng: &mut Rng, i: u64) -> String {
 	let fdepth = rng.range(1, 4) as u32;
 	let root = if typed { gen_typed(rng, &mut t, &mut ico) } else { gen_free(rng, &mut t, fdepth) };
 	let va: u32 = match rng.below(8) { 0 => 0, 1 => 0xFFFF_F000, 2 => 0x1002, 3 => rng.below(0x10000) as u32, _ => 0x1000 * rng.range(1, 64) as u32 };
+	// blobs (icon groups among them) at offsets that are 2 mod 4: valid for everything built from u16 halves
+	if rng.chance(1, 4) {
+		for d in t.datas.iter_mut() {
+			d.half = rng.chance(2, 3);
+		}
+	}
 	let mut wf = true;      // the writer's tree is what a traversal must report
 	let mut expfsck = "ok"; // what the consistency check must say
 	// structural variations
